@@ -68,7 +68,10 @@ CONFIG = dict(
                  "address announce / withdraw in a family without a drop / restale in between",
                  "a case is well-formed (Case.Good): sources and attribute sets are referred to by their position (Arc identity), "
                  "every Source is used with one family (daemon: one Source per negotiated family), AS_PATH bytes are whole "
-                 "segments of type 1..4 (what Attribute::decode guarantees); both codecs reject other cases as (bad-case)"],
+                 "segments of type 1..4 (what Attribute::decode guarantees); both codecs reject other cases as (bad-case)",
+                 "while the route selection of a family is deferred (start_deferral .. end_deferral) nothing is selected: the "
+                 "Loc-RIB dump of the family may be empty (it is since /repo 704bd7c); whatever it lists is still judged, and "
+                 "the order of the API list is compared with the ranking again from the end of the deferral on"],
     claimed=True,
 )
 
